@@ -1612,14 +1612,17 @@ class mulgrid(object):
         return grid
 
     def add_layers(self, thicknesses, top_elevation = 0, justify = 'r',
-                   chars  =  ascii_lowercase, spaces = True):
-        """Adds layers of specified thicknesses and top elevation."""
+                   chars  =  ascii_lowercase, spaces = True,
+                   surface_layer_name = None):
+        """Adds layers of specified thicknesses and top elevation.  The
+        name of the surface (atmosphere) layer can optionally be specified."""
         justfn = [str.rjust, str.ljust][justify == 'l']
         chars = uniqstring(chars)
         num = 0
         self.clear_layers()
         z = top_elevation
         surfacelayername = [' 0', 'atm', 'at', ' 0'][self.convention]
+        if surface_layer_name is not None: surfacelayername = surface_layer_name
         self.add_layer(layer(surfacelayername, z, z))
         for thickness in thicknesses:
             z -= thickness
@@ -4043,9 +4046,8 @@ class mulgrid(object):
             else: thicknesses.append(lay.thickness)
         self.clear_layers()
         justify = ['l', 'r'][self.right_justified_names]
-        self.add_layers(thicknesses, top_elevation, justify, chars, spaces)
-        # Preserve old atmosphere layer name:
-        self.rename_layer(self.layerlist[0].name, atm_name)
+        # (preserving old atmosphere layer name:)
+        self.add_layers(thicknesses, top_elevation, justify, chars, spaces, atm_name)
         for col in self.columnlist: self.set_column_num_layers(col)
         self.setup_block_name_index()
         self.setup_block_connection_name_index()
